@@ -1029,6 +1029,7 @@ def _current_thread(I, self, args, kw, fr, site):
         st.ghost["on_own_thread"] = g
         st.ghost_init["on_own_thread"] = g
     me = fr.locals.get("self")
+    I.E.trusted_used.add("threading.current_thread(): the calling method's own Thread object or some other thread, fixed for the call")
     if me is not None and st.decide(zbool(g.t)):
         return me
     return VOpaque("Thread", I.fresh_of_type("int", "other_thread").t)
